@@ -281,6 +281,30 @@ def cases(tier, shard, nshards):
                 vals2 = [-1, 2, 2, 5, 1][:n + 1]
                 src2 = " ".join(("(%d)" % vals2[0] if vals2[0] < 0 else str(vals2[0])) if i == 0 else "%s %d" % (seq[i - 1], vals2[i]) for i in range(n + 1))
                 yield Case(src2, {"fam": "C", "ops": list(seq), "vals": vals2})
+    # ---- E: chainable comparison builtins whose precedence was reassigned (bound as aliases with every
+    #         precedence in {0, 3, 5} and both associativities) mixed with + (4), * (5) and max (0): a merged
+    #         comparison keeps the LEFT operator's precedence and associativity
+    aliases = []
+    for base, nm in (("<", "lt"), ("<=", "le")):
+        for p in (0, 3, 5):
+            for a in ("L", "R"):
+                aliases.append(("%s%d%s" % (nm, p, a.lower()), base, p, a))
+    bindE = [{"name": n, "src": "(%s)" % base, "prec": p, "assoc": a} for (n, base, p, a) in aliases]
+    namesE = [a[0] for a in aliases] + ["+", "*", "max"]
+    maxe = 3 if tier == "quick" else 4
+    for n in range(2, maxe + 1):
+        for seq in itertools.product(namesE, repeat=n):
+            if sum(1 for o in seq if o[0] == "l") < 2:
+                continue      # at least two comparison aliases, otherwise family C covers it
+            if n == 4 and tier != "quick" and len(set(seq)) < 2:
+                continue
+            if not mine():
+                continue
+            steps = []
+            for vals in ([1, 2, 3, 4, 5], [3, 2, 2, 1, 0]):
+                v = vals[:n + 1]
+                steps.append(" ".join(str(v[0]) if i == 0 else "%s %d" % (seq[i - 1], v[i]) for i in range(n + 1)))
+            yield Case(steps, {"fam": "E", "ops": list(seq)}, bind=bindE, iso=True)
     # ---- D: list builtins vs prefix rendering
     maxd = 2 if tier == "quick" else 3
     for n in range(1, maxd + 1):
@@ -308,7 +332,7 @@ def nontrivial(case, rs):
     m = case.meta
     if m["fam"] == "A":
         return len(m["cfg"]) >= 2
-    if m["fam"] in ("C", "D"):
+    if m["fam"] in ("C", "D", "E"):
         return len(m["ops"]) >= 2
     return True
 
@@ -322,7 +346,36 @@ def judge(case, rs):
         return judge_B(case, rs)
     if fam == "C":
         return judge_C(case, rs)
+    if fam == "E":
+        return judge_E(case, rs)
     return judge_D(case, rs)
+
+
+def judge_E(case, rs):
+    m = case.meta
+    P = builtin_precs()
+    ops, names = [], []
+    for o in m["ops"]:
+        if o[0] == "l" and o[:2] in ("lt", "le"):
+            base = "<" if o[:2] == "lt" else "<="
+            ops.append((int(o[2]), o[3].upper(), base))
+            names.append(base)
+        else:
+            ops.append((P[o][0], P[o][1], o))
+            names.append(o)
+    t = group(ops, num_chains)
+    out = []
+    for src, vals, r in zip(case.steps, ([1, 2, 3, 4, 5], [3, 2, 2, 1, 0]), rs):
+        exp = num_eval(t, names, vals[:len(ops) + 1])
+        if exp in ("skip", "raise"):
+            continue
+        want = cI(int(exp))
+        sig = "C03 E ops=%s" % " ".join(m["ops"])
+        if r.get("st") != "ok":
+            out.append(Violation(sig + " result=" + str(r.get("st")), "%s -> %s %s, expected %s" % (src, r.get("st"), r.get("e"), want), want, r.get("st")))
+        elif norm(r["v"]) != want:
+            out.append(Violation(sig + " result=wrong-grouping", "%s gave %s, reference grouping gives %s" % (src, norm(r["v"]), want), want, norm(r["v"])))
+    return out[:1]
 
 
 def judge_D(case, rs):
